@@ -36,8 +36,9 @@ class C12(Prop):
         "NV.C12.no_starvation",
         "NV.C12.cmdLoop_complete",
         "NV.C12.cmdLoop_serves",
+        "NV.C12.getchar_typeahead_repaired",
     ]
-    witness_theorems = ["NV.C12.getchar_typeahead_witness", "NV.C12.C12_trace_Full_false"]
+    witness_theorems = []
     consts = [("hasCmdTurn", "HAS_CMD_TURN"), ("cmdInBuf", "CMD_IN_BUF"), ("singleChar", "SINGLE_CHAR"),
               ("maxText", "MAX_TEXT")]
     const_headers = ["src/comm.h"]
@@ -165,6 +166,11 @@ class C12(Prop):
         for _ in range(rng.range(0, 2)):
             u = rng.range(1, nmax)
             lines.append("script u%d =%s %s" % (u, rng.choice(SUBWORDS1), self.gen_script(rng, nmax, 1)))
+        if rng.chance(1, 4):
+            # get_char heavy: lines typed while a get_char() is pending, partial lines typed ahead of it
+            for u in range(1, min(nmax, 4) + 1):
+                for wd in (rng.choice(WORDS), rng.choice(WORDS)):
+                    lines.append("script u%d =%s %s" % (u, wd, rng.choice(["gc", "gc", "gc;it", "it", "gc;ecmd,u%d,n1" % u])))
         nconn = 0
         nacc = 0
         closed = set()
